@@ -1,7 +1,7 @@
 (* C04 — genome gene lists are exact; ancestral gene counts equal the lineages at a taxon. *)
 From Coq Require Import List Arith Bool String Permutation.
-From PyHam Require Import Tax Ortho Loader.
-From PyHam.proofs Require Import LoaderFacts RegFacts.
+From PyHam Require Import Tax Ortho Loader Mapper Preds Hist Whole.
+From PyHam.proofs Require Import LoaderFacts RegFacts ExplicitFacts WholeFacts CrossFacts.
 Import ListNotations.
 
 (* The registrations performed during a load (Genome.add_gene calls: one list per node) are, up to
@@ -27,6 +27,27 @@ Theorem c04_genome_lists : forall t d l T,
      flat_map (fun top => map href (filter (fun x => taxon_eqb (htax x) T) (hogs_of (snd top)))) (l_tops l)).
 Proof. exact genome_lists_exact. Qed.
 Print Assumptions c04_genome_lists.
+
+(* "the number of ancestral genes at a taxon equals the number of family lineages crossing it": the lineages crossing T
+   in a family are the HOGs placed at T plus the parent -> child links passing T without a HOG there (Preds.crossing);
+   for every consistent input no link skips a level, so every top-level HOG contributes exactly its HOGs at T - which,
+   by c04_genome_lists, are what the ancestral genome at T lists *)
+Theorem c04_lineages_crossing : forall t d hs,
+  consistent t d hs ->
+  exists l, load t d = Ok l /\ forall T,
+    Forall (fun top => crossing T (snd top) = List.length (filter (fun x => taxon_eqb (htax x) T) (hogs_of (snd top)))) (l_tops l).
+Proof.
+  intros t d hs Hc. destruct (consistent_forest t d hs Hc) as (l & El & _ & Hf). exists l. split; [exact El|]. intros T.
+  apply Forall_forall. intros top Hin. destruct (Forall2_in_r _ _ _ top Hf Hin) as (h & _ & (_ & _ & Hw)).
+  exact (aligned_crossing t T (snd top) Hw).
+Qed.
+Print Assumptions c04_lineages_crossing.
+
+(* a link that skips a level is seen by the count (the measure is not trivially the HOG count) *)
+Example c04_skip_counted :
+  crossing [1] (HHog 0 [] {| m_id := None; m_og := None; m_props := []; m_scores := []; m_synth := false |}
+                     [(None, HGene "c1"%string [1; 1]); (None, HGene "x1"%string [0])]) = 1.
+Proof. vm_compute. reflexivity. Qed.
 
 Local Open Scope string_scope.
 Definition tr : stree :=
